@@ -6,6 +6,7 @@ import json, os, re, shutil, subprocess, sys, tempfile, time
 
 src, sid, prop = sys.argv[1], sys.argv[2], sys.argv[3]
 confirm = '--no-confirm' not in sys.argv
+run_checks = '--no-checks' not in sys.argv   # --no-checks: only confirm and store; tools/seed_recheck.py fills in the check results
 ROOT = '/verif'
 TARGET = '/tmp/verif_seed_target'
 
@@ -54,7 +55,7 @@ if confirm:
 d = scratch(True, False)
 claimed = [c['property_id'] for c in json.load(open(os.path.join(ROOT, 'MANIFEST.json')))['checks']]
 res = {}
-for p in claimed:
+for p in (claimed if run_checks else []):
     rc, out = sh('./check %s' % p, cwd=ROOT, env=dict(VERIF_REPO=d, VERIF_EVIDENCE_DIR='/tmp/vseed_evidence'))
     res[p] = dict(exit=rc, lines=[l for l in out.split('\n') if l.startswith('VIOLATION') or l.startswith('UNDECIDED')][:6])
 shutil.rmtree(d)
